@@ -140,7 +140,10 @@ func (c *Ctx) global(g *ssa.Global) *Value {
 	c.globals[g] = s
 	if g.Pkg != nil && !c.inited[g.Pkg] {
 		c.inited[g.Pkg] = true
-		if init := g.Pkg.Func("init"); init != nil {
+		// packages whose init only reads process settings (GODEBUG): their globals keep
+		// the zero value, i.e. the default configuration (FIPS-only mode off)
+		skipInit := g.Pkg.Pkg.Path() == "crypto/internal/fips140only"
+		if init := g.Pkg.Func("init"); init != nil && !skipInit {
 			// package initialisation happens before main in Go: its writes are
 			// not accesses of whichever logical thread triggered the lazy init
 			c.noTrack++
